@@ -9,7 +9,8 @@ PROP = dict(
                     "40..420 registrations and lookups.  Every id returned is checked for range and uniqueness, every lookup by id "
                     "(0..0x1100 swept completely at the end of each case and after every refused registration at capacity) and by name "
                     "(whole, length-limited, alias, 'name: symbol' descriptions) is compared with a shadow table, built-in sizes with "
-                    "sizeof of the C types.  A C++ leg (300 / 3000 processes) drives the same registry through the mpt::type_traits wrappers and "
+                    "sizeof of the C types; all 256 message value format codes (mpt_msgvalfmt_typeid/_size/_code) and byte sizes 0..17 "
+                    "(mpt_type_int/uint) must be refused or name a built-in scalar type of exactly that size and kind.  A C++ leg (300 / 3000 processes) drives the same registry through the mpt::type_traits wrappers and "
                     "the type_properties<T> templates.  Exploration, not proof."),
         level_note=("trusts the shadow table and the sizeof table in harness/c06_registry.c, gcc ASan+UBSan (malloc fill pattern makes "
                     "uninitialised size fields visible as wrong sizes; no memcheck leg: the runner builds the asan flavour only)"),
@@ -22,7 +23,10 @@ PROP = dict(
                            "refused:short-name": 300, "refused:duplicate-name": 300,
                            "capacity:basic": 64, "capacity:generic": 1792, "capacity:interface": 48, "capacity:metatype": 1791,
                            "exhausted:basic": 5, "exhausted:generic": 5, "exhausted:interface": 5, "exhausted:metatype": 5,
-                           "monitor:sweep-after-exhaustion": 20}),
+                           "monitor:sweep-after-exhaustion": 20,
+                           "mpt_msgvalfmt_typeid": 10000, "monitor:msgvalfmt-id-compared": 400, "monitor:msgvalfmt-round-trip": 400,
+                           "refused:msgvalfmt": 8000, "mpt_msgvalfmt_code": 400, "mpt_type_int": 700, "mpt_type_uint": 700,
+                           "monitor:type_int-compared": 300, "refused:type_int": 1000}),
               dict(name="c06_cxx", src=["c06_cxx.cpp"], libs=["mpt++", "mptio", "mptplot", "mptcore"], batch=1,
                    floors={"type_traits::add": 50000, "type_traits::add_basic": 500, "type_traits::add_interface": 500,
                            "type_traits::add_metatype": 500, "type_properties::id": 3000, "type_traits::get(id)": 100000,
@@ -34,7 +38,7 @@ PROP = dict(
               "distinct = 64-bit hash of the registration sequence with arguments; C++ leg: one process per PRNG history of 20..200 "
               "operations through mpt::type_traits::add/add_basic/add_interface/add_metatype/get and type_properties<T>::id()/traits() for "
               "12 harness types and the built-in specialisations (every 6th history fills the generic range first)"),
-        exhaustive_note="ids 0..0x1100 looked up completely at the end of every case; every range filled to refusal (64 basic, 48 interface, 1791 metatype, 1792 generic ids)",
+        exhaustive_note="all 256 message value format codes and byte sizes 0..17 in every built-in sweep and exhaustion case; ids 0..0x1100 looked up completely at the end of every case; every range filled to refusal (64 basic, 48 interface, 1791 metatype, 1792 generic ids)",
         assumptions=SAN_BASE + ["built-in size table written with sizeof in harness/c06_registry.c (TypeUnixSocket = int, Type*Ptr = void *)",
                                 "names of built-ins: convertable/logger/output/iterator/metatype from the alias table and examples, the other built-in interface names are adopted at first lookup and must then stay",
                                 "a name held by an interface and a metatype at once (not refused by the library) may resolve to either",
